@@ -15,6 +15,11 @@ CLAIMED["C03"] = ("ovf-codec", "exploration",
   "Generated (credential, cipher, option mask, address, write script) cases: bytes from the real encoders are decoded by an independent reference implementation of Shadowsocks AEAD/2022 (+identity headers), VMess AEAD and Trojan configured only with the password strings, with sender limits enforced; reference-built streams and datagrams are decoded by the real decoders; address and payload must match in both directions, TCP and UDP. Exploration of the input space, relative to the reference.",
   "Trusted: the reference implementation (written from the specifications, anchored by third-party known-answer vectors re-run at start-up), RustCrypto primitives, the clock hook.", "DESIGN.md 5/C03")
 
+CLAIMED["C04"] = ("ovf-codec", "exploration",
+  "metamorphic property testing (same stream, generated segmentation => same items) through the real framed/WebSocket adapters at quiescence, plus exhaustive single-cut enumeration",
+  "Reference-built valid streams of every protocol/cipher/direction/VMess mask are delivered through the real tokio_util FramedRead and the real WebSocketFramed in generated segmentations (and only a prefix of them), on a paused single-thread runtime; at quiescence the released payload must equal exactly the complete frames delivered, without error, with the target-carrying item first. Every single cut position of one short stream per decoder configuration is enumerated. Datagram-in-stream framings (VMess UDP, Trojan UDP) likewise. Exploration of the 2^(n-1) segmentations, exhaustive only for single cuts of the enumerated streams.",
+  "Trusted: reference encoder (tied to the implementation by C03), tokio's paused-clock auto-advance as the definition of quiescence, tokio duplex + tokio-websockets as the message transport.", "DESIGN.md 5/C04")
+
 PENDING = {}
 
 def main():
